@@ -2,6 +2,8 @@
 # Builds the extracted model + driver.  Run from anywhere.
 set -e
 cd "$(dirname "$0")"
+[ -f ../coq/Makefile ] || (cd ../coq && coq_makefile -f _CoqProject -o Makefile >/dev/null)
+make -C ../coq -j16 theories/Run/Dispatch.vo >/dev/null
 mkdir -p _build
 cd _build
 coqc -Q ../../coq/theories IdV ../../coq/theories/Extract/Extract.v -o ./Extract.vo >/dev/null
